@@ -97,6 +97,14 @@ def gen_case(seed, i, thorough):
         r = random.Random((seed << 22) ^ (i * 69069) ^ 0xE57)
         if r.random() < 0.6:
             c["env"] = {r.choice(names): r.choice(["true", "1", "yes", "false", ""])}
+    # drawn from its own stream: the nogood search among the semantics flags (the naive arm
+    # of the CLI offers it too), sometimes as the only flag of the importing run
+    r3 = random.Random((seed << 23) ^ (i * 48271) ^ 0x57A6)
+    x3 = r3.random()
+    if x3 < 0.2:
+        c["flags"] = c["flags"] + ["--stmng"]
+    elif x3 < 0.3:
+        c["flags"] = ["--stmng"]
     if PROPERTY == "C06":
         # the C06 part: fault-free runs only - export, semantics in the same run, re-import,
         # second generation; the printed answers are the observation point of canonicity
